@@ -234,6 +234,20 @@ def c_lists(c, kind, body, signed):
                     c.check("C04: foreach with index arithmetic over objects holds for every element",
                             all(x == i + 2 for i, (x, y) in enumerate(xs)), info=repr(xs))
                 c.check("C04: each element's own constraint block is enforced", all(x != y for x, y in xs), info=repr(xs))
+            # clearing / refilling afterwards acts on exactly the exposed list: the objects reached by indexing and by
+            # iteration are the ones appended after the clear, and they are the ones the next call solves
+            o.items.clear()
+            c.check("C04: clear empties the exposed object list", len(o.items) == 0 and [it for it in o.items] == [])
+            fresh = [Item() for _ in range(2)]
+            for it in fresh:
+                o.items.append(it)
+            c.check("C04: indexing and iteration expose the objects appended after the clear",
+                    len(o.items) == 2 and all(o.items[i] is fresh[i] for i in range(2)) and all(a is b for a, b in zip(o.items, fresh)))
+            o.randomize()
+            xs = [(int(it.x), int(it.y)) for it in fresh]
+            c.check("C04: the next call solves the refilled elements",
+                    (all(x < 6 and y > x for x, y in xs) if body == "obj_field" else all(x == i + 2 for i, (x, y) in enumerate(xs)))
+                    and all(x != y for x, y in xs), info=repr(xs))
         except Exception as e:
             c.check("C04: no exception other than SolveFailure", False, info="objects %s %s: %s" % (body, type(e).__name__, e))
     else:
